@@ -218,5 +218,41 @@ PROPS['C03'] = Prop(
     outside='more than T threads / S operations per thread / P preemptions; weak memory orderings (SC only); data races in the C++ sense on unlocked reads are modelled as atomic accesses at the scheduling points; the reference counting inside std::shared_ptr is executed atomically',
     assumptions=['linearizability oracle: exhaustive search over the orders compatible with program order and real-time order'])
 
+_QT = ('EventQueue, instrumented Threading policy; 0..2 events pending at the start; T=%d threads x S=%d calls each from {%s}%s; every schedule with at most P=%d preemptions; scheduling points: %s')
+_OPS1 = 'enqueue, process, processOne, takeEvent'
+_OPS2 = 'enqueue, processIf, processUntil, takeEvent, clearEvents'
+_OPS0 = 'enqueue, process, processOne, processIf, processUntil, takeEvent, peekEvent, clearEvents'
+PROPS['C06'] = Prop(
+    quick=[Run('q_threads_ops1_s2_p1', 'q_threads.cpp', {'MODE': 6, 'TT': 2, 'SS': 2, 'OPSET': 1}, preempt=1, covers=2, mt=True, bounds=_QT % (2, 2, _OPS1, '', 1, _SP_HOOKS)),
+           Run('q_threads_ops2_s1_p2', 'q_threads.cpp', {'MODE': 6, 'TT': 2, 'SS': 1, 'OPSET': 2}, preempt=2, covers=2, optional_covers=(0,), mt=True, bounds=_QT % (2, 1, _OPS2, '', 2, _SP_HOOKS)),
+           Run('q_threads_all_s1_auto_p1', 'q_threads.cpp', {'MODE': 6, 'TT': 2, 'SS': 1, 'OPSET': 0}, preempt=1, covers=2, mt=True, shared_points=True, native=(), bounds=_QT % (2, 1, _OPS0, '', 1, _SP_AUTO))],
+    thorough=[Run('q_threads_all_s2_p1', 'q_threads.cpp', {'MODE': 6, 'TT': 2, 'SS': 2, 'OPSET': 0}, preempt=1, covers=2, mt=True, budget_s=1700, bounds=_QT % (2, 2, _OPS0, '', 1, _SP_HOOKS)),
+              Run('q_threads_ops1_s2_p2', 'q_threads.cpp', {'MODE': 6, 'TT': 2, 'SS': 2, 'OPSET': 1}, preempt=2, covers=2, mt=True, budget_s=1700, bounds=_QT % (2, 2, _OPS1, '', 2, _SP_HOOKS)),
+              Run('q_threads_ops2_s2_p2', 'q_threads.cpp', {'MODE': 6, 'TT': 2, 'SS': 2, 'OPSET': 2}, preempt=2, covers=2, mt=True, budget_s=1700, bounds=_QT % (2, 2, _OPS2, '', 2, _SP_HOOKS)),
+              Run('q_threads_t3_ops1_s1_p2', 'q_threads.cpp', {'MODE': 6, 'TT': 3, 'SS': 1, 'OPSET': 1}, preempt=2, covers=2, mt=True, budget_s=1700, bounds=_QT % (3, 1, _OPS1, '', 2, _SP_HOOKS)),
+              Run('q_threads_ops1_s2_auto_p1', 'q_threads.cpp', {'MODE': 6, 'TT': 2, 'SS': 2, 'OPSET': 1}, preempt=1, covers=2, mt=True, shared_points=True, native=(), budget_s=1700, bounds=_QT % (2, 2, _OPS1, '', 1, _SP_AUTO))],
+    outside='more threads / calls per thread / preemptions than stated; HeterEventQueue under threads; weak memory (SC only)',
+    assumptions=['per-event ledger: dispatched + taken <= 1 always, == 1 after the final single-threaded drain unless a clearEvents call could have discarded the event; FIFO per (producer, consumer) pair'])
+PROPS['C11'] = Prop(
+    quick=[Run('q_observer_t1_s2_p3', 'q_threads.cpp', {'MODE': 11, 'TT': 1, 'SS': 2, 'OPSET': 1}, preempt=3, covers=5, optional_covers=(0, 1, 2), mt=True, bounds=_QT % (1, 2, _OPS1, ' + one observer thread calling emptyQueue() or waitFor(timeout); in every run the listener itself also calls emptyQueue() (single-threaded variant)', 3, _SP_HOOKS)),
+           Run('q_observer_t1_s1_auto_p2', 'q_threads.cpp', {'MODE': 11, 'TT': 1, 'SS': 1, 'OPSET': 1}, preempt=2, covers=5, optional_covers=(0, 1, 2), mt=True, shared_points=True, native=(), bounds=_QT % (1, 1, _OPS1, ' + one observer thread', 2, _SP_AUTO)),
+           Run('q_observer_t2_s1_p1', 'q_threads.cpp', {'MODE': 11, 'TT': 2, 'SS': 1, 'OPSET': 1}, preempt=1, covers=5, optional_covers=(1, 2, 4), mt=True, bounds=_QT % (2, 1, _OPS1, ' + one observer thread', 1, _SP_HOOKS))],
+    thorough=[Run('q_observer_t2_s1_auto_p2', 'q_threads.cpp', {'MODE': 11, 'TT': 2, 'SS': 1, 'OPSET': 1}, preempt=2, covers=5, optional_covers=(1, 2), mt=True, shared_points=True, native=(), budget_s=1700, bounds=_QT % (2, 1, _OPS1, ' + one observer thread', 2, _SP_AUTO)),
+              Run('q_observer_ops1_s2_p2', 'q_threads.cpp', {'MODE': 11, 'TT': 2, 'SS': 2, 'OPSET': 1}, preempt=2, covers=5, optional_covers=(2,), mt=True, budget_s=1700, bounds=_QT % (2, 2, _OPS1, ' + one observer thread', 2, _SP_HOOKS)),
+              Run('q_observer_all_s1_p3', 'q_threads.cpp', {'MODE': 11, 'TT': 2, 'SS': 1, 'OPSET': 0}, preempt=3, covers=5, mt=True, budget_s=1700, bounds=_QT % (2, 1, _OPS0, ' + one observer thread', 3, _SP_HOOKS)),
+              Run('q_observer_ops1_s2_auto_p2', 'q_threads.cpp', {'MODE': 11, 'TT': 2, 'SS': 2, 'OPSET': 1}, preempt=2, covers=5, optional_covers=(2,), mt=True, shared_points=True, native=(), budget_s=1700, bounds=_QT % (2, 2, _OPS1, ' + one observer thread', 2, _SP_AUTO))],
+    outside='more threads / calls / preemptions than stated; the observation is attributed to the interval [call, return] of emptyQueue/waitFor',
+    assumptions=['an event counts as consumed when its listener has returned (one listener), when a takeEvent call that obtained it began, or when a clearEvents call overlapping the observation could have discarded it'])
+_WT = ('EventQueue, instrumented Threading policy (wait/wait_for are the standard predicate loops over the policy condition variable; no spurious wake-ups so a lost wake-up cannot be masked); %s; enqueuer script chosen from '
+       '{plain enqueue, enqueue inside a DisableQueueNotify scope, inside two nested scopes, empty scope then enqueue, two enqueues inside one scope}%s; timeouts of waitFor fire at any scheduling point; at most P=%d preemptions')
+PROPS['C07'] = Prop(
+    quick=[Run('q_wait_1w_p3', 'q_threads.cpp', {'MODE': 7, 'TT': 2}, preempt=3, covers=8, optional_covers=(0, 1, 2, 3, 4), mt=True, bounds=_WT % ('1 waiter (wait or waitFor, then process)', '', 3)),
+           Run('q_wait_1w_scope_p2', 'q_threads.cpp', {'MODE': 7, 'TT': 2, 'SCOPE_THREAD': None}, preempt=2, covers=8, optional_covers=(0, 1, 2, 3, 4), mt=True, bounds=_WT % ('1 waiter', ' + optionally a third thread that opens and closes a DisableQueueNotify scope', 2))],
+    thorough=[Run('q_wait_2w_p3', 'q_threads.cpp', {'MODE': 7, 'TT': 3}, preempt=3, covers=8, optional_covers=(0, 1, 2, 3, 4), mt=True, budget_s=1700, bounds=_WT % ('1 or 2 waiters', '', 3)),
+              Run('q_wait_1w_scope_p3', 'q_threads.cpp', {'MODE': 7, 'TT': 2, 'SCOPE_THREAD': None}, preempt=3, covers=8, optional_covers=(0, 1, 2, 3, 4), mt=True, budget_s=1700, bounds=_WT % ('1 waiter', ' + optional scope-only thread', 3)),
+              Run('q_wait_1w_auto_p2', 'q_threads.cpp', {'MODE': 7, 'TT': 2}, preempt=2, covers=8, optional_covers=(0, 1, 2, 3, 4), mt=True, shared_points=True, native=(), budget_s=1700, bounds=_WT % ('1 waiter', '; automatic scheduling points on shared plain accesses', 2))],
+    outside='spurious wake-ups (deliberately excluded); real time (timeouts are a nondeterministic stub); more than 2 waiters; std::condition_variable itself (the policy type stands in for it)',
+    assumptions=['liveness is checked as safety on terminal states: a state in which no thread can run, a waiter is parked, events are pending and the notify counter is 0 is a lost wake-up'])
+
 HOOK_COMMITS = []
 EBMC_PROPS = []
